@@ -12,6 +12,7 @@
 -/
 import AHP.Lemmas.Format
 import AHP.Lemmas.FormatLexPrettyLayout
+import AHP.Lemmas.FormatLexPrettyMulti
 namespace AHP.C12
 open AHP AHP.Fmt
 -- the lexer's side (namespace `AHP`) has declarations with the same short names as the formatter model
@@ -414,6 +415,73 @@ theorem pretty_text_layout_second_pass (cfg : Cfg) (hm : cfg.mini = false) (hi :
   obtain ⟨out2, toks3, g1, g2, g3, g4⟩ := pretty_text_layout_tokens cfg hm hi n st sc _ s1 n1 _ w1 _ p1 rfl hdt
   exact ⟨_, _, out2, toks3, f1, l1, g1, g2, g3, g4⟩
 
+/-! #### the text-level statements for MULTI-ROOT documents (the invisible wrapper) -/
+
+/-- **C12d on text, multi-root: pretty³ = pretty².**  As `pretty_text_stable`, for a strict multi-root document: `kids`
+    are the top-level blocks (text, references, comments, elements — `topScan false kids = none` says a first parser pass
+    rejects them, so the parser wraps them in the invisible root), `strictToksM dt kids` their tokens after the doctype
+    declaration.  `getHTML` prints the doctype line, a line break and the blocks; on re-parsing that line break is text
+    of the wrapper, and the next pass strips it again (`squeeze_dtText`) — which is why the proof goes through. -/
+theorem pretty_text_stable_multi (cfg : Cfg) (hm : cfg.mini = false) (hi : IndentWS cfg) (dt : Option Str)
+    (hdt : DtOK dt) (kids : List FNode) (hs : StrictL kids) (hnw : NoWrapperL kids)
+    (hmulti : topScan false kids = none) :
+    ∃ out1 toks2 out2 toks3 out3,
+      format cfg (strictToksM dt kids) = .ok out1 ∧ lexStrict out1 = some toks2 ∧
+      format cfg (toks2.map Tok.ofToken) = .ok out2 ∧ lexStrict out2 = some toks3 ∧
+      format cfg (toks3.map Tok.ofToken) = .ok out3 ∧ out3 = out2 := by
+  obtain ⟨out1, toks2, out2, toks3, h1, h2, h3, h4, h5⟩ :=
+    pretty_text_stable_multi_core cfg hm hi dt hdt kids hs hnw hmulti
+  exact ⟨out1, toks2, out2, toks3, out2, h1, h2, h3, h4, h5, rfl⟩
+
+/-- **C12a on the output text, multi-root.**  As `pretty_text_layout_tokens`, for any token sequence whose plain-parser
+    tree is the invisible wrapper around the strict top-level blocks `kids`: the output lexes, the tags are balanced, and
+    at every position the layout law holds with depth recomputed from the tokens alone — top-level elements at depth 0
+    (preceded by a line break and nothing else), the wrapper does not count. -/
+theorem pretty_text_layout_multi (cfg : Cfg) (hm : cfg.mini = false) (hi : IndentWS cfg)
+    (kids : List FNode) (hs : StrictL kids) (hnw : NoWrapperL kids) (hmulti : topScan false kids = none)
+    (toks : List Tok) (hnws : NoWrapperStart toks) (ps : St)
+    (hp : Plain.feed toks = .ok ps) (hroot : ps.root = some (FNode.elem wrapper {} false kids).toNode)
+    (hdt : DtOK ps.doctype) :
+    ∃ out toks2, format cfg toks = .ok out ∧ lexStrict out = some toks2 ∧ tagStack [] toks2 = [] ∧
+      ∀ pre t post, toks2 = pre ++ t :: post →
+        out = renderToksY (styleOf cfg.kind) pre ++ renderTokY (styleOf cfg.kind) t
+                ++ renderToksY (styleOf cfg.kind) post
+        ∧ (∀ m a, t = .start m a ∨ t = .startend m a → noPre (tagStack [] pre) = true →
+            ∃ x, renderToksY (styleOf cfg.kind) pre = x ++ '\n' :: rep (tagStack [] pre).length cfg.indent)
+        ∧ (∀ m, t = .end_ m → (tagStack [] pre).head? = some m ∧
+            (isPre m = false → noPre (tagStack [] pre).tail = true →
+              ∃ x, renderToksY (styleOf cfg.kind) pre = x ++ '\n' :: rep ((tagStack [] pre).length - 1) cfg.indent)) := by
+  obtain ⟨out, toks2, h1, h2, h3, h4⟩ :=
+    pretty_layout_core_multi cfg hm hi ps.doctype hdt kids hs hnw hmulti toks hnws ps hp hroot rfl
+  exact ⟨out, toks2, h1, h2, scan_balanced _ _ _ _ _ h4, scan_positions cfg out toks2 h3 h4⟩
+
+/-- … and so does the output of the second pass (hence, with `pretty_text_stable_multi`, of every later pass) -/
+theorem pretty_text_layout_multi_second_pass (cfg : Cfg) (hm : cfg.mini = false) (hi : IndentWS cfg) (dt : Option Str)
+    (hdt : DtOK dt) (kids : List FNode) (hs : StrictL kids) (hnw : NoWrapperL kids)
+    (hmulti : topScan false kids = none) :
+    ∃ out1 toks2 out2 toks3, format cfg (strictToksM dt kids) = .ok out1 ∧ lexStrict out1 = some toks2 ∧
+      format cfg (toks2.map Tok.ofToken) = .ok out2 ∧ lexStrict out2 = some toks3 ∧ tagStack [] toks3 = [] ∧
+      ∀ pre t post, toks3 = pre ++ t :: post →
+        out2 = renderToksY (styleOf cfg.kind) pre ++ renderTokY (styleOf cfg.kind) t
+                ++ renderToksY (styleOf cfg.kind) post
+        ∧ (∀ m a, t = .start m a ∨ t = .startend m a → noPre (tagStack [] pre) = true →
+            ∃ x, renderToksY (styleOf cfg.kind) pre = x ++ '\n' :: rep (tagStack [] pre).length cfg.indent)
+        ∧ (∀ m, t = .end_ m → (tagStack [] pre).head? = some m ∧
+            (isPre m = false → noPre (tagStack [] pre).tail = true →
+              ∃ x, renderToksY (styleOf cfg.kind) pre = x ++ '\n' :: rep ((tagStack [] pre).length - 1) cfg.indent)) := by
+  obtain ⟨f1, l1, w1, p1, s1, n1, m1⟩ := pass_step_multi cfg hi dt hdt kids hs hnw hmulti _
+    (noWrapperStart_toksM dt kids hs hnw) _ (plain_feed_strictToksM dt hdt kids hs hmulti) rfl rfl
+  obtain ⟨out2, toks3, g1, g2, g3, g4⟩ := pretty_text_layout_multi cfg hm hi _ s1 n1 m1 _ w1 _ p1 rfl hdt
+  exact ⟨_, _, out2, toks3, f1, l1, g1, g2, g3, g4⟩
+
+/-- **mini² = mini on text, multi-root** (mini classes, strict multi-root document without adjacent data blocks) -/
+theorem mini_output_fixed_point_text_multi (cfg : Cfg) (hm : cfg.mini = true) (hi : IndentWS cfg) (dt : Option Str)
+    (hdt : DtOK dt) (kids : List FNode) (hs : StrictL kids) (hg : GluedL kids) (ha : FNoAdjL kids)
+    (hnw : NoWrapperL kids) (hmulti : topScan false kids = none) :
+    ∃ out toks2, format cfg (strictToksM dt kids) = .ok out ∧ lexStrict out = some toks2 ∧
+      format cfg (toks2.map Tok.ofToken) = .ok out :=
+  mini_text_fixed_point_multi cfg hm hi dt hdt kids hs hg ha hnw hmulti
+
 /-- **The hypothesis `NoWrapper` is needed for the layout law** (the property excludes the reserved name): in the strict
     document `<div><xxxblank><p></p></xxxblank></div>` the element carrying the wrapper's name does not count as a level,
     so `<p >` — two elements open — is written after one unit instead of two. -/
@@ -438,15 +506,17 @@ theorem layout_reads_as_line (cfg : Cfg) (hi : IndentWS cfg) (d : Nat) (before x
 /-!
   #### What is partial
 
-  * The text-level theorems (`mini_output_fixed_point_text`, `pretty_text_stable`, `pretty_text_layout…`) are stated for
-    the strict sub-language the lexer bridge of C11 covers: single-root documents whose tree is `FNode.Strict` (well-formed
-    names and attribute items, text blocks that are data runs / references / comments other than the singletons `<` `&`,
-    raw-text content free of its closing expression, attribute stores re-read unchanged), doctype absent or a
-    `doctype …` declaration, reserved name absent, indent unit of spaces/tabs.  Multi-root documents (the invisible
-    wrapper; C11's `doc_reparse_multi` covers their re-parse) are not covered by the three-pass statement.  For
-    arbitrary token sequences (implicit closes, stray end tags, …) the tree-level statements above hold
-    (`indentation_law`, `reformat_tree_fixed_point`); the tie runs passes 1–3 of every case through model and library and
-    the oracles check the layout on passes 1 and 2, `pass 3 = pass 2` and `mini² = mini` on the real code.
+  * The text-level theorems (`mini_output_fixed_point_text`, `pretty_text_stable`, `pretty_text_layout…`, and their
+    `…_multi` counterparts for multi-root documents) are stated for the strict sub-language the lexer bridge of C11
+    covers: documents whose plain-parser tree is `FNode.Strict` (well-formed names and attribute items, text blocks that
+    are data runs / references / comments other than the singletons `<` `&`, raw-text content free of its closing
+    expression, attribute stores re-read unchanged), doctype absent or a `doctype …` declaration, reserved name absent,
+    indent unit of spaces/tabs.  The layout statements `pretty_text_layout_tokens` / `pretty_text_layout_multi` take ANY
+    token sequence whose tree is of that kind — implicit closes and elements left open at the end of the input included;
+    the three-pass statements start from the tokens of the tree (`strictToks`, `strictToksM`).  Token sequences whose
+    tree is not strict (data singletons, ill-formed names, …) are covered by the tree-level statements above
+    (`indentation_law`, `reformat_tree_fixed_point`) and by the tie: passes 1–3 of every case run through model and
+    library, the oracles check the layout on passes 1 and 2, `pass 3 = pass 2` and `mini² = mini` on the real code.
   * `mini² = mini` needs `Glued` (no two adjacent data blocks) — without it: the known finding below.
 -/
 
@@ -537,6 +607,42 @@ example : ∃ out toks2, format (mkCfg .pretty .dflt false) openTailToks = .ok o
   ⟨out, toks2, h1, h2, h3⟩
 example : okIs (format (mkCfg .pretty .dflt false) openTailToks)
     "\n<div >\n  <ul >\n    <li >a\n    </li>\n  </ul>\n  <p >b\n  </p>\n</div>" = true := by decide
+/-- a multi-root document: text, two elements (one nested), a reference, a void element, trailing line break -/
+def multiKids : List FNode :=
+  [.tok (.data (str "a ")), .elem (str "b") {} false [.tok (.data (str "x")), .elem (str "i") {} false []],
+   .tok (.entity (str "amp")), .elem (str "br") {} true [], .elem (str "p") {} false [.tok (.data (str "y\n"))],
+   .tok (.data (str "\n"))]
+
+theorem multiKids_strict : StrictL multiKids := by simp only [multiKids, FNode.Strict, StrictL]; decide
+theorem multiKids_noWrapper : NoWrapperL multiKids := by simp only [multiKids, FNode.NoWrapper, NoWrapperL]; decide
+theorem multiKids_multi : topScan false multiKids = none := by decide
+
+/-- `pretty_text_stable_multi` applies to it (with a doctype, tab indent) … -/
+example : ∃ out1 toks2 out2 toks3 out3,
+    format (mkCfg .pretty (.str (str "\t")) false) (strictToksM (some (str "doctype html")) multiKids) = .ok out1 ∧
+    lexStrict out1 = some toks2 ∧ format (mkCfg .pretty (.str (str "\t")) false) (toks2.map Tok.ofToken) = .ok out2 ∧
+    lexStrict out2 = some toks3 ∧ format (mkCfg .pretty (.str (str "\t")) false) (toks3.map Tok.ofToken) = .ok out3 ∧
+    out3 = out2 :=
+  pretty_text_stable_multi _ rfl (by decide) _ (by decide) _ multiKids_strict multiKids_noWrapper multiKids_multi
+
+/-- … and so does the layout law (slim class) -/
+example : ∃ out1 toks2 out2 toks3, format (mkCfg .slim .dflt true) (strictToksM none multiKids) = .ok out1 ∧
+    lexStrict out1 = some toks2 ∧ format (mkCfg .slim .dflt true) (toks2.map Tok.ofToken) = .ok out2 ∧
+    lexStrict out2 = some toks3 ∧ tagStack [] toks3 = [] :=
+  let ⟨o1, t2, o2, t3, h1, h2, h3, h4, h5, _⟩ := pretty_text_layout_multi_second_pass (mkCfg .slim .dflt true) rfl
+    (by decide) none trivial _ multiKids_strict multiKids_noWrapper multiKids_multi
+  ⟨o1, t2, o2, t3, h1, h2, h3, h4, h5⟩
+
+/-- the texts: pass 1 and pass 2 (= pass 3) of the multi-root document -/
+example : okIs (format (mkCfg .pretty (.str (str "\t")) false) (strictToksM (some (str "doctype html")) multiKids))
+    "<!doctype html>\na \n<b >x\n\t<i >\n\t</i>\n</b>&amp;\n<br />\n<p >y\n</p>" = true := by decide +kernel
+/-- `mini_output_fixed_point_text_multi` applies to it -/
+example : ∃ out toks2, format (mkCfg .mini .dflt false) (strictToksM (some (str "doctype html")) multiKids) = .ok out ∧
+    lexStrict out = some toks2 ∧ format (mkCfg .mini .dflt false) (toks2.map Tok.ofToken) = .ok out :=
+  mini_output_fixed_point_text_multi _ rfl (by decide) _ (by decide) _ multiKids_strict
+    (by simp only [multiKids, FNode.Glued, GluedL, FNoAdjL, fisDataTok]; decide)
+    (by simp only [multiKids, FNoAdjL, fisDataTok]; decide) multiKids_noWrapper multiKids_multi
+
 /-- the texts in question: pass 1, and pass 2 = pass 3 (what the model's formatter and lexer compute) -/
 example : okIs (format (mkCfg .pretty .dflt false) (strictToks (some (str "DOCTYPE html")) stableTree))
     ("<!DOCTYPE html>\n\n<div >a b\n  <p >x\n    <br />\n  </p>\n  <pre ><span >  y  </span></pre>&amp;\n" ++
